@@ -2,9 +2,12 @@ package props
 
 import (
 	"fmt"
+	"github.com/semafind/semadb/conversion"
 	"math"
 	"math/bits"
 	"math/rand/v2"
+	"semaverif/model"
+	"semaverif/sx"
 	"strings"
 	"time"
 
@@ -49,6 +52,7 @@ func (c20) Cases(tier string, seed uint64) []fw.Case {
 		cs = append(cs, fw.Case{Seed: fw.CaseSeed(seed, "C20bits", i), Name: fmt.Sprintf("bits-%d", i), Params: map[string]any{"what": "bits", "lo": i*1024 + 1, "hi": (i + 1) * 1024}})
 	}
 	cs = append(cs, fw.Case{Seed: fw.CaseSeed(seed, "C20hav", 0), Name: "haversine", Params: map[string]any{"what": "haversine"}})
+	cs = append(cs, fw.Case{Seed: fw.CaseSeed(seed, "C20pq", 0), Name: "product-quantiser", Params: map[string]any{"what": "pq"}})
 	return cs
 }
 
@@ -150,6 +154,8 @@ func (c20) RunCase(c fw.Case, env *fw.Env) *fw.CaseResult {
 		c20Bits(res, rng, c.Int("lo", 1), c.Int("hi", 64))
 	case "haversine":
 		c20Haversine(res, rng)
+	case "pq":
+		c20PQ(res, rng)
 	}
 	return res
 }
@@ -493,4 +499,137 @@ func c20Haversine(res *fw.CaseResult, rng *rand.Rand) {
 		}
 	}
 	res.Sample(map[string]any{"metric": "haversine", "pairs": 40000, "includes": "poles, antimeridian, near-identical points"})
+}
+
+// c20PQ: the quantised distances of a trained product quantiser are the metric between
+// reconstructions: query (or point A's centroids) against point B's centroids, sub-vector by
+// sub-vector. Both forms rank candidates (search: float -> point; graph building and pruning:
+// point -> point), so both are compared with the metric evaluated on the centroids the store itself
+// persisted, for euclidean, dot and cosine (documented to fall back to euclidean), for pairs that share
+// centroids in some, all or no sub-vectors, and for symmetry.
+func c20PQ(res *fw.CaseResult, rng *rand.Rand) {
+	type cfg struct{ dim, sub, cent int }
+	for _, metric := range []string{models.DistanceEuclidean, models.DistanceDot, models.DistanceCosine} {
+		for _, cf := range []cfg{{8, 2, 16}, {12, 3, 8}, {6, 6, 4}, {16, 4, 32}, {5, 1, 8}} {
+			n := max(64, cf.cent*4)
+			bucket := diskstore.NewMemBucket(false)
+			q := &models.Quantizer{Type: models.QuantizerProduct, Product: &models.ProductQuantizerParameters{NumCentroids: cf.cent, NumSubVectors: cf.sub, TriggerThreshold: n}}
+			vs, err := vectorstore.New(q, bucket, metric, cf.dim)
+			if err != nil {
+				res.Violate("store-error", "pq-store:new", err.Error(), nil)
+				continue
+			}
+			vecs := make([][]float32, n)
+			pts := make([]vectorstore.VectorStorePoint, n)
+			for i := range vecs {
+				v := make([]float32, cf.dim)
+				var norm float64
+				for j := range v {
+					// a few clusters per coordinate so that points share centroids, off-centre so that
+					// centroid norms are far from zero (the dot product of a centroid with itself is not 0)
+					v[j] = float32(1+rng.IntN(3)) + rng.Float32()*0.2
+					if rng.IntN(4) == 0 {
+						v[j] = -v[j]
+					}
+					norm += float64(v[j]) * float64(v[j])
+				}
+				if metric == models.DistanceCosine {
+					for j := range v {
+						v[j] = float32(float64(v[j]) / math.Sqrt(norm))
+					}
+				}
+				vecs[i] = v
+			}
+			for i := range vecs {
+				if _, err := vs.Set(uint64(i+2), append([]float32{}, vecs[i]...)); err != nil {
+					res.Violate("store-error", "pq-store:set", err.Error(), nil)
+				}
+			}
+			if err := vs.Fit(); err != nil {
+				res.Violate("store-error", "pq-store:fit", err.Error(), nil)
+				continue
+			}
+			if err := vs.Flush(); err != nil {
+				res.Violate("store-error", "pq-store:flush", err.Error(), nil)
+				continue
+			}
+			cb := bucket.Get([]byte("_productQuantizerFlatCentroids"))
+			if cb == nil {
+				res.Violate("store-error", "pq-store:untrained", fmt.Sprintf("%d vectors stored with trigger %d but no centroids were persisted", n, n), nil)
+				continue
+			}
+			cents := sx.Floats(cb)
+			sl := cf.dim / cf.sub
+			codes := make([][]byte, n)
+			for i := range vecs {
+				p, err := vs.Get(uint64(i + 2))
+				if err != nil {
+					res.Violate("store-error", "pq-store:get", err.Error(), nil)
+					continue
+				}
+				pts[i] = p
+				codes[i] = bucket.Get(conversion.NodeKey(uint64(i+2), 'q'))
+			}
+			pqMetric := metric
+			if metric == models.DistanceCosine {
+				pqMetric = models.DistanceEuclidean
+			}
+			cent := func(sub int, c byte) []float32 {
+				st := sub*cf.cent*sl + int(c)*sl
+				return cents[st : st+sl]
+			}
+			expect := func(x []float32, xc, yc []byte) model.Dist {
+				var tot model.Dist
+				for i := 0; i < cf.sub; i++ {
+					a := cent(i, yc[i])
+					var b []float32
+					if xc != nil {
+						b = cent(i, xc[i])
+					} else {
+						b = x[i*sl : (i+1)*sl]
+					}
+					d := model.Metric(pqMetric, b, a)
+					tot.V += d.V
+					tot.S += d.S + math.Abs(d.V)
+				}
+				tot.N = cf.dim + cf.sub
+				return tot
+			}
+			shared := 0
+			for t := 0; t < 400; t++ {
+				a, b := rng.IntN(n), rng.IntN(n)
+				if t%10 == 0 {
+					b = a
+				}
+				if pts[a] == nil || pts[b] == nil || len(codes[a]) != cf.sub || len(codes[b]) != cf.sub {
+					res.Violate("store-error", "pq-store:code", fmt.Sprintf("point %d/%d has no persisted product code after training", a, b), nil)
+					break
+				}
+				for i := 0; i < cf.sub; i++ {
+					if codes[a][i] == codes[b][i] {
+						shared++
+						break
+					}
+				}
+				res.Eval(true, "pq", metric, cf.dim, cf.sub, cf.cent, t)
+				wantPP := expect(nil, codes[a], codes[b])
+				gotPP := float64(vs.DistanceFromPoint(pts[a])(pts[b]))
+				gotPPr := float64(vs.DistanceFromPoint(pts[b])(pts[a]))
+				query := vecs[rng.IntN(n)]
+				wantFP := expect(query, nil, codes[b])
+				gotFP := float64(vs.DistanceFromFloat(query)(pts[b]))
+				if math.Abs(gotPP-wantPP.V) > wantPP.Bound()+1e-30 {
+					res.Violate("distance-mismatch", "pq:"+metric+":point-to-point", fmt.Sprintf("product quantiser %s dim %d, %d sub-vectors, %d centroids: distance between stored points with codes %v and %v is %g, the metric between their centroids gives %g", metric, cf.dim, cf.sub, cf.cent, codes[a], codes[b], gotPP, wantPP.V), nil)
+				}
+				if math.Abs(gotPP-gotPPr) > wantPP.Bound()+1e-30 {
+					res.Violate("asymmetric", "pq:"+metric+":asymmetric", fmt.Sprintf("product quantiser %s: d(a,b)=%g but d(b,a)=%g for codes %v %v", metric, gotPP, gotPPr, codes[a], codes[b]), nil)
+				}
+				if math.Abs(gotFP-wantFP.V) > wantFP.Bound()+1e-30 {
+					res.Violate("distance-mismatch", "pq:"+metric+":float-to-point", fmt.Sprintf("product quantiser %s dim %d: distance from query %v to the point with code %v is %g, the metric against its centroids gives %g", metric, cf.dim, query, codes[b], gotFP, wantFP.V), nil)
+				}
+			}
+			res.Stat("pq_pairs_sharing_a_centroid", int64(shared))
+		}
+	}
+	res.Sample(map[string]any{"product quantiser": "euclidean, dot, cosine x 5 (dim, sub-vectors, centroids) settings", "via": "vectorstore.New(product) Set/Fit/Flush on a memory bucket; DistanceFromPoint / DistanceFromFloat vs the metric on the persisted centroids"})
 }
